@@ -4,10 +4,10 @@ CONSTANTS
   ClampLevel = TRUE
   ND = 1
   OpNames = {"AddBulletList", "AddListItem", "AddListItemNil", "AddNumberedList", "CreateMultiLevelList", "RemoveListItem", "Reopen", "RestartNumbering"}
-  Types = {"bullet", "decimal"}
+  Types = {"bullet", "decimal", "lowerRoman"}
   Syms = {"dash", "dot"}
   NumSyms = {"empty"}
-  LvlCodes = {1, 10}
+  LvlCodes = {0, 1, 10}
   Starts = {1, 5}
   MLTypes = {"bullet", "decimal"}
   MLLvls = {0, 1}
@@ -24,13 +24,14 @@ CONSTANTS
   Styles = {"Title"}
   MLs = {3}
   TSLvls = {1}
+  Files = {FALSE, TRUE}
   MaxK = 2
   Depth = 0
   MaxItems = 3
   MaxNotes = 2
   MaxHeads = 2
   MaxTocs = 2
-  MaxAlloc = 3
+  MaxAlloc = 4
 INVARIANTS Inv_C15 Inv_Ids Inv_Idem
 PROPERTIES Act_TOC Act_Notes Act_Frame
 VIEW MCView
